@@ -241,7 +241,7 @@ func (t *Teamserver) DispatchEvent(pk packager.Package) {
 
 					} else {
 
-						for _, a := range t.Service.Agents {
+						for _, a := range t.Service.AgentList() {
 							if a.MagicValue == fmt.Sprintf("0x%x", t.Agents.Agents[i].Info.MagicValue) {
 
 								// Set agent type
@@ -586,7 +586,7 @@ func (t *Teamserver) DispatchEvent(pk packager.Package) {
 				// check if the service endpoint is up and available
 				if t.Service != nil {
 
-					for _, listener := range t.Service.Listeners {
+					for _, listener := range t.Service.ListenerList() {
 
 						if Protocol == listener.Name {
 
@@ -932,7 +932,7 @@ func (t *Teamserver) DispatchEvent(pk packager.Package) {
 				}()
 			} else {
 				// send to Services
-				for _, Agent := range t.Service.Agents {
+				for _, Agent := range t.Service.AgentList() {
 					if Agent.Name == AgentType {
 						var ConfigMap = make(map[string]any)
 
